@@ -175,6 +175,8 @@ def client_main(manager, conn, name):
                         pr.join(STEP_TIMEOUT)
                         if pr.exitcode is None:
                             rep = ('err', 'kid does not exit', '')
+                        else:
+                            _reap(pr)
             elif op == 'check':
                 fac.ping()   # flushes the previous request / reply still referenced by the serving thread
                 rep = ('ok', {h: _call_check(p, kinds[h]) for h, p in tab.items()})
@@ -194,6 +196,18 @@ def client_main(manager, conn, name):
 
 # ---------------------------------------------------------------------------------------------------------------
 # harness side
+
+def _reap(pr):
+    """Run the SpawnProcess finalizer (it joins the process's logger thread) NOW, from a quiet point of the harness.
+    Left to the garbage collector it runs inside whatever thread happens to allocate - seen: inside a starting thread
+    that holds threading._shutdown_locks_lock, where Thread.join() then blocks forever on that same lock."""
+    f = getattr(pr, '_finalizer_', None)
+    if f is not None:
+        try:
+            f()
+        except Exception:  # noqa: BLE001
+            pass
+
 
 class World:
     """a fresh ServerProcess + client interpreters"""
@@ -262,8 +276,10 @@ class World:
             try:
                 if pr.exitcode is None:
                     pr.kill()
+                    pr.join(5)
             except Exception:  # noqa: BLE001
                 pass
+            _reap(pr)
         try:
             self.server.shutdown()
         except Exception:  # noqa: BLE001
@@ -271,6 +287,7 @@ class World:
                 self.server._process.kill()
             except Exception:  # noqa: BLE001
                 pass
+        _reap(getattr(self.server, '_process', None))
 
 
 def kind_of(o, variant):
@@ -831,7 +848,9 @@ def observation(drv, gen, final=False):
         obs = drv.observe(via)
         key = (sorted(obs['info'].items()), obs['held'], obs['cont'], obs['shm'])
         n += 1
-        if prev == key and n >= (6 if final else 2):
+        # the final observation must be of a quiet server: nothing left at all, or unchanged for ~2 s (a lagging server
+        # thread on a loaded machine must not look like a leak)
+        if prev == key and n >= ((2 if not obs['info'] and not any(obs['shm'].values()) else 40) if final else 2):
             break
         if prev != key:
             n = 1
@@ -971,10 +990,19 @@ def run_item(item):
 
 
 def run_job(job):
+    import gc
+    try:
+        import faulthandler
+        import signal
+        faulthandler.register(signal.SIGUSR1, all_threads=True)   # stacks of a stuck job end up in its log
+    except Exception:  # noqa: BLE001
+        pass
+    gc.disable()   # cyclic garbage (process objects with finalizers that join threads) is collected between items only
     res = []
     for item in job['items']:
         t0 = time.time()
         r = run_item(item)
+        gc.collect()
         r['wall'] = round(time.time() - t0, 2)
         r['kind'] = item['kind']
         for k in ('src', 'probe', 'variant'):
